@@ -458,8 +458,9 @@ def savePolicy (e : Enf) : Enf × Bool :=
       | some w => ({ e with notif := e.notif ++ [if w.isEx then "SavePolicy" else "Update"] }, true)
       | none => (e, true)
 
-/-- `BuildRoleLinks` -/
+/-- `BuildRoleLinks` (with the repair: the matcher map is invalidated first) -/
 def buildRoleLinks (e : Enf) : Enf × Bool :=
+  let e := e.invalidate
   let (rm', ok) := rebuildLinks e.md e.rm e.g
   ({ e with rm := rm' }, ok)
 
